@@ -63,6 +63,10 @@ func implC19(line string) string {
 	case "trace":
 		limit, _ := strconv.Atoi(f[1])
 		return implTrace(limit, unhx(f[2]), unhx(strings.SplitN(f[3], "/", 2)[0]))
+	case "climit":
+		n, _ := strconv.Atoi(f[3])
+		d, _ := strconv.Atoi(f[4])
+		return implCLimit(f[1], f[2], n, d)
 	case "cls":
 		v, _ := strconv.Atoi(f[2])
 		return implCls(f[1], v)
@@ -170,6 +174,41 @@ func implTrace(limit int, fname, src string) string {
 		return fmt.Sprintf("err-type:%T:%s", err, hx(err.Error()))
 	}
 	return errTok(oe)
+}
+
+// implCLimit: trace limit tl ("d" = leave the default), stack-depth limit sl (0 = leave unset) configured on a fresh
+// runtime, n x Copy(), then an error below d nested calls on the last copy: frames in Error.String() and in e.stack.
+func implCLimit(tl, sl string, n, d int) string {
+	vm := otto.New()
+	if tl != "d" {
+		k, _ := strconv.Atoi(tl)
+		vm.SetStackTraceLimit(k)
+	}
+	if k, _ := strconv.Atoi(sl); k != 0 {
+		vm.SetStackDepthLimit(k)
+	}
+	for i := 0; i < n; i++ {
+		vm = vm.Copy()
+	}
+	prog := "zzz;"
+	if d > 0 {
+		prog = fmt.Sprintf("function r(k){ if (k <= 1) { return zzz; } return r(k - 1); }; r(%d);", d)
+	}
+	_, err := vm.Run(prog)
+	oe, ok := err.(*otto.Error)
+	if !ok {
+		return fmt.Sprintf("err-type:%T", err)
+	}
+	if !strings.HasPrefix(oe.Error(), "ReferenceError") {
+		return "unexpected:" + hx(oe.Error())
+	}
+	a := strings.Count(oe.String(), "\n    at ")
+	v, err := vm.Run("var st9; try { " + prog + " } catch (e) { st9 = e.stack; } st9")
+	if err != nil {
+		return "stack-run-error:" + hx(err.Error())
+	}
+	b := strings.Count(v.String(), "\n    at ")
+	return fmt.Sprintf("%d,%d", a, b)
 }
 
 // ---- error classes seen by catch
